@@ -94,7 +94,7 @@ input SaveInput { name: String!, filter: Filter }
 '''
 Q2 = '''
 query GetNode($id: ID!) { node(id: $id) { id ...UserF ... on Bot { model kind } ... on Dog { barks } } }
-query Things { things { __typename ... on User { ...UserF ...UserG } ... on Cat { lives } ... on Bot { ...BotF } } }
+query Things { things { __typename ... on User { ...UserF ...UserG ...Userg } ... on Cat { lives } ... on Bot { ...BotF } } }
 query GetUser($f: Filter, $c: Color, $d: Date) { user(f: $f, c: $c, d: $d) { ...All } }
 query NodeAbs($id: ID!) { node(id: $id) { id ... on Named { name } ... on Dog { barks } } }
 query Search($kind: Kind) { search(kind: $kind) { ... on User { name } ... on Dog { barks } } }
@@ -102,8 +102,9 @@ mutation Save($input: SaveInput!) { save(input: $input) { id born } }
 fragment UserF on User { id name }
 fragment UserG on User { color kind }
 fragment BotF on Bot { model }
+fragment Userg on User { born }
 fragment All on User { ...UserF ...UserG ...Deep born }
-fragment Deep on User { friends { ...UserF ...UserG } }
+fragment Deep on User { friends { ...UserF ...UserG ...Userg } }
 '''
 PLUGINS = ["ariadne_codegen.contrib.shorter_results.ShorterResultsPlugin", "ariadne_codegen.contrib.extract_operations.ExtractOperationsPlugin",
            "ariadne_codegen.contrib.client_forward_refs.ClientForwardRefsPlugin"]
@@ -140,11 +141,14 @@ def run_pipeline(strategy: str, oracle, split_files: bool, preexisting: int, plu
     try:
         os.chdir(base)
         if split_files:
-            os.makedirs(os.path.join(base, "schema/sub"))
+            # three directories holding files of the SAME names (p0..p2.graphql): an order that looks at base names only, or
+            # at the listing order of the directory tree, is visible
+            for d in ("schema/sub", "schema/other/deep", "schema"):
+                os.makedirs(os.path.join(base, d), exist_ok=True)
             parts = [p for p in SDL2.strip().split("\n") if p.strip()]
             for i, part in enumerate(parts):
-                d = "schema/sub" if i % 3 == 0 else "schema"
-                with open(os.path.join(base, d, f"p{(i * 7) % 23:02d}.graphql"), "w") as f:
+                d = ("schema/sub", "schema/other/deep", "schema")[i % 3]
+                with open(os.path.join(base, d, f"p{(i * 7) % 23 % 3}.graphql"), "a") as f:
                     f.write(part + "\n")
             schema_path = os.path.join(base, "schema")
         else:
